@@ -105,7 +105,18 @@ def make_loads(desc: dict) -> list:
     else:
         raise ValueError(fam)
     q = np.asarray(q, dtype=float) * scale
-    return [float(x) for x in q]
+    # the form in which the profile is handed over: the tool documents "a list of hourly loads in W" - whole watts written without a
+    # decimal point (JSON integers) and numpy arrays are legal forms of the same profile
+    form = desc.get("form", "float")
+    if form == "float":
+        return [float(x) for x in q]
+    if form == "int":
+        return [int(round(float(x))) for x in q]
+    if form == "np_int":
+        return np.asarray([int(round(float(x))) for x in q], dtype=np.int64)
+    if form == "np_float":
+        return np.asarray(q, dtype=float)
+    raise ValueError(form)
 
 
 def draw_desc(g: np.random.Generator, families=None, scale=None) -> dict:
